@@ -90,7 +90,14 @@ def run(ctx, variants=(("verif", "c04"), ("verif,unsafe", "c04u"))):
             if rcc != 0:
                 broken.append({"kind": "obligation", "name": "driver c04conn crashed", "detail": errc[-1500:]})
             dis += ctx.correspond([l for l in linesc if "\t" in l], orc, "Conn request emission (write.go/sizeof.go, conn.go writeRequest) <-> golden schema / Kafka wire spec")
-    ctx.coverage["rule"] = ("CONN: Conn.CreateTopics (v0-v2, replica assignments and config entries), DeleteTopics (v0,v1), ReadPartitions (metadata v1,v6), "
+            # response side of the Conn codec, every response delivered in two pieces cut at every position
+            linesr, rcr, errr = ctx.run_driver(drvc, ["-resp"])
+            if rcr != 0:
+                broken.append({"kind": "obligation", "name": "driver c04conn -resp crashed", "detail": errr[-1500:]})
+            dis += ctx.correspond([l for l in linesr if "\t" in l], orc, "Conn response decoding (read.go, conn.go, batch.go) under split delivery: values, exact frame consumption")
+    ctx.coverage["rule"] = ("CONN RESPONSES: every Conn operation that reads a response (connfake.Ops x negotiated versions; fetch v2/v5/v10 with magic-1 and magic-2 "
+                            "record sets whose varints are multi-byte) with the response frame written as frame[:k], frame[k:] for EVERY k (frames > 700 bytes: k < 80 and every 3rd): "
+                            "outcome ok, 0 bytes left in the Conn buffer, same decoded values. CONN: Conn.CreateTopics (v0-v2, replica assignments and config entries), DeleteTopics (v0,v1), ReadPartitions (metadata v1,v6), "
                             "ReadLastOffset (listoffsets v1) and the group/sasl operations of VerifConnOp captured by a fake broker that frames strictly by the size prefix; "
                             "op connreq: capture must parse under the golden schema, re-encode to exactly the captured bytes and match the argument values. REFLECTION CODEC: "
                             "every type passed to protocol.Register/RegisterOverride (80 message types) x every version of its range x values: "
